@@ -203,13 +203,32 @@ func (s *lenSummaries) bounds(h *ssa.Function, i int, max int64) bool {
 }
 
 func definitelyNonNilError(v ssa.Value) bool {
+	return nonNilErrorDepth(v, 0)
+}
+
+func nonNilErrorDepth(v ssa.Value, depth int) bool {
 	switch x := v.(type) {
 	case *ssa.MakeInterface:
 		return true
 	case *ssa.Call:
 		if f := calleeFunc(x); f != nil && f.Pkg() != nil {
 			n := f.Pkg().Path() + "." + f.Name()
-			return n == "fmt.Errorf" || n == "errors.New"
+			if n == "fmt.Errorf" || n == "errors.New" {
+				return true
+			}
+		}
+		// an error constructor of the repo: every return is a non-nil error
+		if sc := x.Call.StaticCallee(); sc != nil && depth < 2 && len(sc.Blocks) > 0 && sc.Signature.Results().Len() == 1 && isErrorType(sc.Signature.Results().At(0).Type()) {
+			rets := returnsOf(sc)
+			if len(rets) == 0 {
+				return false
+			}
+			for _, ret := range rets {
+				if rv := retVal(ret, 0); !nonNilErrorDepth(rv, depth+1) && !nonNilByGuard(sc, ret, rv) {
+					return false
+				}
+			}
+			return true
 		}
 	case *ssa.Phi:
 		for _, e := range x.Edges {
